@@ -202,13 +202,16 @@ func c09(args []string) error {
 	defer tr.Close()
 	r := vh.Rand(9)
 
+	var sharedParent *models.URL // non-nil: every evaluation uses this one parent object (all links of one page do)
 	emitNorm := func(ev map[string]any, input, parentText string) (c09result, bool) {
-		parent := c09parent(parentText)
 		res := []c09result{}
 		for i := 0; i < 4; i++ { // fresh objects every time
-			res = append(res, c09norm(input, c09parent(parentText)))
+			if sharedParent != nil {
+				res = append(res, c09norm(input, sharedParent))
+			} else {
+				res = append(res, c09norm(input, c09parent(parentText)))
+			}
 		}
-		_ = parent
 		same := true
 		for _, x := range res[1:] {
 			if x != res[0] {
@@ -306,6 +309,28 @@ func c09(args []string) error {
 			emitNorm(ev2, text, "")
 			tr.Emit(ev2)
 		}
+	}
+	// ---- the links of one page are normalised against ONE parent object, one after the other: the result must not
+	// depend on what was normalised before (first each reference with a fresh parent, then the same ones in a shuffled
+	// order against the shared object; the monitor compares by (text, parent))
+	pageRefs := []string{"/abs/x.css?v=1", "img.png", "../up/a.js", "?page=2", "//cdn.example.org/lib.js", "./here/i.gif", "/", "deep/er/f.woff", "http://example.com/z?b=2&a=1", "#top"}
+	for i := 0; i < 40 && i < len(corpus); i++ {
+		baseText := corpus[(i*7)%len(corpus)][1]
+		if baseText == "" || c09parent(baseText) == nil {
+			continue
+		}
+		for _, ref := range pageRefs {
+			ev := map[string]any{"ev": "norm", "cls": "page-fresh"}
+			emitNorm(ev, ref, baseText)
+			tr.Emit(ev)
+		}
+		sharedParent = c09parent(baseText)
+		for _, k := range r.Perm(len(pageRefs)) {
+			ev := map[string]any{"ev": "norm", "cls": "page-shared"}
+			emitNorm(ev, pageRefs[k], baseText)
+			tr.Emit(ev)
+		}
+		sharedParent = nil
 	}
 	// ---- unstructured: hand-written nasties and mutations
 	nasties := []string{"", " ", "http://", "http:///", "://x", "http://example.com#", "http://example.com/#a#b", "HTTP://EXAMPLE.COM/A?B=C#D",
